@@ -114,7 +114,8 @@ DESCR += [(r"c05_._parse_chunk_size_len", "parse_chunk_size on every byte string
 
 PROPS["C04"] = dict(
     filters={"quick": ["c04_q", "c04_qtwin"], "thorough": ["c04_"]},
-    timeout_s={"quick": 600, "thorough": 3600},
+    timeout_s={"quick": 600, "thorough": 2400},
+    mem_gb=28, jobs={"thorough": 6},
     kernel=["buffers::{read_line,read_line_strict,read_line_ending,trim_byte,trim_byte_left,trim_byte_right,replace_byte}", "parse_response_head",
             "parse_response (Transfer-Encoding removal)", "http::{HeaderName::from_bytes,HeaderValue::from_bytes,HeaderMap::append,StatusCode::from_str} as called"],
     bounds="line readers on ALL byte strings of length 3..6 x byte limit x BufReader capacity 1..8 x segmentation; trim/replace on all strings of length 4/7; "
